@@ -7,7 +7,7 @@ use crate::gen::{Delims, Gen, GenCfg, COMP_NAMES};
 use crate::regsim::{DiskAction, DiskFault, Op, OpNote, RegScenario};
 use crate::rendersim::comp_probe_ctx;
 use crate::rng::Rng;
-use crate::sval::{gen_context, gen_global_context, hex};
+use crate::sval::{gen_context, gen_global_context, hex, SVal};
 use std::collections::BTreeSet;
 
 fn hx(s: &str) -> String {
@@ -527,6 +527,16 @@ pub fn generate(seed: u64, tier: &str, property: &str) -> RegScenario {
                     h.push(Op::AddRaw { name, source: src }, Some("same-length-replacement-after-clone"), dep);
                 }
             }
+        } else if roll < 78 {
+            // the global context changes between renders (insert / overwrite / remove / extend)
+            let key = rng.pick(&["g_only", "s_any", "n_int", "m", "zz_global"]).to_string();
+            let val = match rng.below(4) {
+                0 => None,
+                1 => Some(SVal::str("<global 2>")),
+                2 => Some(SVal::I64(rng.irange(-3, 99))),
+                _ => Some(SVal::Str(crate::sval::gen_string(&rng))),
+            };
+            h.push(Op::SetGlobal { key, val, via_extend: rng.chance(1, 3) }, None, false);
         } else if roll < 80 {
             h.push(Op::Restart, None, false);
         } else if use_disk {
